@@ -21,6 +21,7 @@ Record formats (TAB separated):
   F <function> <nargs> <guards> <id> <nout>                  global function overload
   G <class> <property> <id> <assignsThis 0|1>                get.<property>
   T <class> <property> <id>                                  set.<property>
+  E <enumeration class>                                      generated enumeration file
 <guards> is `-` or `i:type,...,i#d=n,...` (1-based varargin index; MATLAB class name, or size(varargin{i},d)==n).
 """
 import os
@@ -190,6 +191,7 @@ def build_table(root, wrapper):
             name = matlab_name(root, path)
             if re.search(r'^classdef\s', text, re.M):
                 if re.search(r'^\s*enumeration\s*$', text, re.M):
+                    recs.append(('E', name))      # an enumeration class: <name>(value) converts a number to it
                     continue
                 recs += parse_classdef(name, text, wrapper)
             else:
